@@ -4,9 +4,10 @@ import BoltonsVerif.C02.Model
 C02 line protocol.  One line = one whole history over a small "world" of caches
 (cache 0 is constructed by the header, every `copy` appends a cache):
 
-    <lru:0|1> <max> <on_miss: - | a,b> <nk> <init: - | pairs> <op> <op> ...
+    <lru:0|1> <max> <on_miss: - | a,b | a,b/ke/ve> <nk> <init: - | pairs> <op> <op> ...
 
-  on_miss `a,b` is the function k ↦ a*k+b;  keys, values are naturals (value 0 stands for
+  on_miss `a,b` is the function k ↦ a*k+b; with `/ke/ve` (key lists `k.k.k` or `-`) it raises
+  KeyError for the keys in ke and ValueError for the keys in ve;  keys, values are naturals (value 0 stands for
   Python's None);  pairs are `k.v,k.v,...` (`-` = empty);  `i`,`j` are cache numbers.
     s:i:k:v      c[k] = v                 g:i:k        c[k]
     d:i:k        del c[k]                 G:i:k:v      c.get(k, v)
@@ -49,6 +50,7 @@ def showOut : Out Nat Nat C → String
   | .none => "-"
   | .val v => s!"v{v}"
   | .keyError => "!KeyError"
+  | .raised => "!ValueError"
   | .item k v => s!"p{k}.{v}"
   | .bool b => if b then "t" else "f"
   | .nat n => s!"n{n}"
@@ -114,15 +116,24 @@ def record (nk : Nat) (res : String) (calls : List Nat) (w : List C) : String :=
 def handle (line : String) : String :=
   match words line with
   | lru :: mx :: om :: nk :: init :: toks =>
-    let onMiss? : Option (Option (Nat → Nat)) :=
+    let onMiss? : Option (Option (Nat → OmRes Nat)) :=
       if om = "-" then some none else
-      match natList? om with
-      | some [a, b] => some (some fun k => a * k + b)
+      match splitOnChar om '/' with
+      | [ab] =>
+        match natList? ab with
+        | some [a, b] => some (some fun k => .ret (a * k + b))
+        | _ => none
+      | [ab, ke, ve] =>
+        match natList? ab, natList? ke '.', natList? ve '.' with
+        | some [a, b], some ke, some ve =>
+          some (some fun k => if ke.contains k then .keyError else if ve.contains k then .error
+                              else .ret (a * k + b))
+        | _, _, _ => none
       | _ => none
     match lru.toNat?, mx.toNat?, onMiss?, nk.toNat?, parsePairs? init with
     | some lru, some mx, some onMiss, some nk, some init =>
       if mx = 0 ∨ 1 < lru then "bad-op" else
-      let c0 : C := (Cache.init (lru = 1) mx onMiss).setAll init
+      let c0 : C := (Cache.initP (lru = 1) mx onMiss).setAll init
       let rec go (w : List C) (toks : List String) (acc : List String) : Option (List String) :=
         match toks with
         | [] => some acc.reverse
